@@ -307,6 +307,16 @@ func c19r2(c *an.Ctx) {
 							if flagBitSet(g, r.flag, r.bit) {
 								okRead, how = true, "behind the atomic flag test"
 							}
+							// ... or behind a predicate method of the same object that is that test (IsSet)
+							if call, isCall := g.Cond.(*ssa.Call); isCall && len(call.Common().Args) == 1 && an.SameRoot(an.PathOf(call.Common().Args[0]).Root, root) {
+								if callee := call.Common().StaticCallee(); callee != nil && len(callee.Blocks) == 1 {
+									if rets := an.Returns(callee); len(rets) == 1 && len(rets[0].Results) == 1 {
+										if flagBitSet(an.Guard{Cond: rets[0].Results[0], True: g.True}, r.flag, r.bit) {
+											okRead, how = true, "behind a predicate method that tests the atomic flag"
+										}
+									}
+								}
+							}
 						}
 					}
 					if !okRead {
